@@ -89,11 +89,14 @@ def run_case(case):
 MANIFEST = {
     'technique': 'property-based testing with an exact enumerating MILP back end as oracle '
                  'and adversarial solution choice',
-    'text': 'Generated (instance, option set, solver tie-break) cases; the matching printed in '
+    'text': 'Generated (instance, option set, solver tie-break) cases, optionally with a second '
+            'Solver object or earlier solve() calls in the same process; the matching printed in '
             'both result formats, every optimal solution admitted by every LpProblem of the run '
             'and the whole feasible set of the first LpProblem are compared with the definition '
-            'of a valid matching computed by an independent reference model. Small-scope '
-            'exploration (<= 5 students): absence of violations is evidence, not proof.',
+            'of a valid matching computed by an independent reference model; 8% of the cases are '
+            'large or sparse-id-embedded instances (two- and three-digit ids) solved by real CBC. '
+            'Small-scope exploration (<= 5 students for the enumerated part): absence of '
+            'violations is evidence, not proof.',
     'note': 'Trusted: the reference model (vp/refmodel.py), the enumerating back end '
             '(cross-checked against CBC in C02/C03 thorough runs), PuLP object semantics. '
             'Floating-point artefacts of real solvers are not generated.',
